@@ -573,7 +573,8 @@ def digest(ln):
 
 
 def state_of(ln):
-    return " | ".join(p for p in ln.raw.split(" | ") if (p.startswith("cache ") or p.startswith("store ") or re.match(r"^S\d+\{", p)))
+    # (a session which is attached to nothing adds nothing: one which was only just created mid-history must not look like a change)
+    return " | ".join(p for p in ln.raw.split(" | ") if (p.startswith("cache ") or p.startswith("store ") or (re.match(r"^S\d+\{", p) and not re.match(r"^S\d+\{\}$", p))))
 
 
 def mon_C03(case):
